@@ -484,7 +484,7 @@ def main(tier, seed):
 def replay_graph_with(g, cn, verdict, stats):
     k = max((op.get("k", 0) for op in g.ops.values()), default=3)
     drv = Driver(cn, k)
-    return core.replay_graph(g, drv, verdict, stats)
+    return core.replay_parallel(g, drv, verdict, stats, generic=False)
 
 
 def canary_graph(g):
